@@ -255,3 +255,19 @@ package cty
 //@   tags C05 C01
 //@   requires (rng_ok (vr_ty r) (vr_raw r))
 //@   ensures[C05] value: (= result (and (not (= (vr_raw r) nil.Any)) (= (rfn_null (vr_raw r)) 70)))
+//
+// ValueRange.Includes, number case (C01; used by Equals to decide "definitely not equal"): a known False
+// is sound - the known number v is then not admitted by the bounds of the refinement (inclusiveness
+// respected, an absent bound admits everything on its side). Stated under the hypothesis that number
+// equality (num_eq: decimal text) is numeric equality for v and each bound (true for whole numbers; see
+// C05). The other cases (string prefix, collection lengths) and the absence of panics are not proved.
+//@ func (cty.ValueRange).Includes
+//@   tags C01
+//@   no_panic_assumed
+//@   requires (and (rng_ok (vr_ty r) (vr_raw r)) (wf_ty (vr_ty r)) (wf_deep v) (not (is_marked v)))
+//@   let w (vr_raw r)
+//@   let rn (rnum_at (unbox<*cty.refinementNumber> w))
+//@   let lo (cty.refinementNumber.min rn)
+//@   let hi (cty.refinementNumber.max rn)
+//@   requires (=> ((_ is box<*cty.refinementNumber>) w) (and (or (= lo nilval) (wf_deep lo)) (or (= hi nilval) (wf_deep hi))))
+//@   ensures[C01] sound_number: (=> (and ((_ is box<*cty.refinementNumber>) w) (not (= (rfn_null w) 84)) (is_number_ty (vr_ty r)) (is_number_ty (vty v)) (kn v) (=> (bound_set lo) (eq_exact v lo)) (=> (bound_set hi) (eq_exact v hi)) (eq_exact v $G<cty.NegativeInfinity>) (eq_exact v $G<cty.PositiveInfinity>) (is_known result) (not (is_null result)) (not (is_marked result)) (is_bool_ty (vty result)) (not (bool_of result))) (not (rfn_admits_num w (num_i v) (num_r v))))
